@@ -6,12 +6,16 @@ import (
 	"os"
 	"os/exec"
 	"path/filepath"
+	"regexp"
 	"sort"
 	"strings"
+	"sync"
 
 	"olricvet/internal/core"
 	"olricvet/internal/rules"
 )
+
+var ruleRe = regexp.MustCompile(`\[(C[0-9]+\.[a-z0-9-]+)\]`)
 
 type seedMeta struct {
 	ID         string   `json:"id"`
@@ -27,15 +31,7 @@ type seedMeta struct {
 func sensitivity(id string, prop *rules.Property) any {
 	metas, _ := filepath.Glob(filepath.Join(core.VerifDir(), "seeded", "*", "meta.json"))
 	sort.Strings(metas)
-	type rec struct {
-		Seed     string   `json:"seed"`
-		Applied  bool     `json:"applied"`
-		Detected bool     `json:"detected"`
-		Rules    []string `json:"rules,omitempty"`
-		Note     string   `json:"note,omitempty"`
-	}
-	var out []rec
-	applied, detected := 0, 0
+	var jobs []string
 	for _, m := range metas {
 		b, err := os.ReadFile(m)
 		if err != nil {
@@ -51,60 +47,31 @@ func sensitivity(id string, prop *rules.Property) any {
 				concerns = true
 			}
 		}
-		if !concerns {
-			continue
+		if concerns {
+			jobs = append(jobs, filepath.Dir(m))
 		}
-		dir := filepath.Dir(m)
-		rc := rec{Seed: filepath.Base(dir)}
-		scratch, err := os.MkdirTemp("", "olricvet-sens-")
-		if err != nil {
-			rc.Note = err.Error()
-			out = append(out, rc)
-			continue
-		}
-		func() {
-			defer os.RemoveAll(scratch)
-			cp := exec.Command("rsync", "-a", "--exclude", ".git", core.RepoDir()+"/", scratch+"/")
-			if o, err := cp.CombinedOutput(); err != nil {
-				rc.Note = "copy failed: " + strings.TrimSpace(string(o))
-				return
-			}
-			ap := exec.Command("git", "apply", filepath.Join(dir, "patch.diff"))
-			ap.Dir = scratch
-			if o, err := ap.CombinedOutput(); err != nil {
-				rc.Note = "the stored change does not apply to the current tree: " + strings.TrimSpace(string(o))
-				return
-			}
-			rc.Applied = true
+	}
+	out := make([]rec, len(jobs))
+	sem := make(chan struct{}, sensitivityWorkers)
+	var wg sync.WaitGroup
+	for i, dir := range jobs {
+		wg.Add(1)
+		go func(i int, dir string) {
+			defer wg.Done()
+			sem <- struct{}{}
+			defer func() { <-sem }()
+			out[i] = sensitivityOne(id, dir)
+		}(i, dir)
+	}
+	wg.Wait()
+	applied, detected := 0, 0
+	for _, rc := range out {
+		if rc.Applied {
 			applied++
-			p2, err := core.LoadDir(scratch)
-			if err != nil {
-				rc.Note = "scratch copy does not load: " + err.Error()
-				return
-			}
-			r2 := core.NewRun(p2, id, "thorough")
-			r2.Quiet = true
-			func() {
-				defer func() {
-					if e := recover(); e != nil {
-						r2.Unknown("analyser", "panic", "-", fmt.Sprintf("%v", e))
-					}
-				}()
-				prop.Run(r2)
-			}()
-			seen := map[string]bool{}
-			for _, o := range r2.Alarms() {
-				rc.Detected = true
-				if !seen[o.Rule] {
-					seen[o.Rule] = true
-					rc.Rules = append(rc.Rules, o.Rule)
-				}
-			}
-			if rc.Detected {
-				detected++
-			}
-		}()
-		out = append(out, rc)
+		}
+		if rc.Detected {
+			detected++
+		}
 	}
 	return map[string]any{
 		"what":             "seeded changes concerning this property, each applied to a scratch copy of /repo's current tree and re-analysed with this property's rules; informational only, never part of the verdict",
@@ -113,4 +80,81 @@ func sensitivity(id string, prop *rules.Property) any {
 		"mutants_total":    len(out),
 		"records":          out,
 	}
+}
+
+type rec struct {
+	Seed     string   `json:"seed"`
+	Applied  bool     `json:"applied"`
+	Detected bool     `json:"detected"`
+	Rules    []string `json:"rules,omitempty"`
+	Note     string   `json:"note,omitempty"`
+}
+
+// sensitivityWorkers bounds the number of child analyses running at a time (each holds one
+// loaded program, about 1 GB).
+const sensitivityWorkers = 4
+
+// sensitivityOne applies one stored change to a scratch copy and re-analyses it in a child
+// process: one loaded program is some gigabytes, and a child gives them back on exit.
+func sensitivityOne(id, dir string) (rc rec) {
+	rc.Seed = filepath.Base(dir)
+	scratch, err := os.MkdirTemp("", "olricvet-sens-")
+	if err != nil {
+		rc.Note = err.Error()
+		return
+	}
+	defer os.RemoveAll(scratch)
+	cp := exec.Command("rsync", "-a", "--exclude", ".git", core.RepoDir()+"/", scratch+"/")
+	if o, err := cp.CombinedOutput(); err != nil {
+		rc.Note = "copy failed: " + strings.TrimSpace(string(o))
+		return
+	}
+	ap := exec.Command("git", "apply", filepath.Join(dir, "patch.diff"))
+	ap.Dir = scratch
+	if o, err := ap.CombinedOutput(); err != nil {
+		rc.Note = "the stored change does not apply to the current tree: " + strings.TrimSpace(string(o))
+		return
+	}
+	rc.Applied = true
+	outDir, err := os.MkdirTemp("", "olricvet-sensout-")
+	if err != nil {
+		rc.Note = err.Error()
+		return
+	}
+	defer os.RemoveAll(outDir)
+	if kf, err := os.ReadFile(filepath.Join(core.VerifDir(), "KNOWN_FINDINGS.txt")); err == nil {
+		os.WriteFile(filepath.Join(outDir, "KNOWN_FINDINGS.txt"), kf, 0o644)
+	}
+	if fp, err := os.ReadFile(filepath.Join(core.VerifDir(), "rules", "fingerprints.json")); err == nil {
+		os.MkdirAll(filepath.Join(outDir, "rules"), 0o755)
+		os.WriteFile(filepath.Join(outDir, "rules", "fingerprints.json"), fp, 0o644)
+	}
+	self, err := os.Executable()
+	if err != nil {
+		rc.Note = err.Error()
+		return
+	}
+	child := exec.Command(self, "check", id, "quick")
+	child.Env = append(os.Environ(), "OLRIC_REPO="+scratch, "VERIF_DIR="+outDir)
+	o, _ := child.CombinedOutput()
+	code := -1
+	if child.ProcessState != nil {
+		code = child.ProcessState.ExitCode()
+	}
+	seen := map[string]bool{}
+	for _, m := range ruleRe.FindAllStringSubmatch(string(o), -1) {
+		if !seen[m[1]] {
+			seen[m[1]] = true
+			rc.Rules = append(rc.Rules, m[1])
+		}
+	}
+	sort.Strings(rc.Rules)
+	switch code {
+	case 1:
+		rc.Detected = true
+	case 0:
+	default:
+		rc.Note = fmt.Sprintf("the child analysis ended with exit code %d", code)
+	}
+	return
 }
